@@ -26,8 +26,10 @@ def main():
         print(p.stdout)
         sys.exit(1 if p.returncode else 0)
     depth = 3 if c.tier == "quick" else 4
-    deadline = time.time() + c.budget(70, 1000)     # counted from here: a header edit rebuilds all of libocca first
-    res = histbfs.bfs(c, exe, depth, deadline, env, c.scratch, per_item_timeout=15.0)
+    # The work of a tier is a fixed, bounded set sized by CPU time (quick: 4-7 CPU-minutes = 15-25 s on 16 idle cores).
+    # The wall-clock deadline is only a safety net for a heavily loaded machine; it starts after the (possibly long) build.
+    deadline = time.time() + c.budget(600, 3000)
+    res = histbfs.bfs(c, exe, depth, deadline, env, c.scratch, per_item_timeout=60.0)
     timeouts_retried = 0
     final = []
     for sig, detail, hist in res.violations:
